@@ -57,6 +57,11 @@ func runC03(c *Ctx) {
 	ruleSnapshot(c) // "some key of the list, whatever the list order": the snapshot searched holds every key
 	ruleUpdate(c)   // "a configured key": marking a key used never puts a removed key back into the list
 	ruleBufSize(c, a, "BUFSIZE")
+	// a datagram is handled by the generation whose handle is open: a shared reader that accepts a read request before it has
+	// a datagram hands the next datagram to a handle that may have been closed meanwhile (its keys were removed)
+	for _, m := range findMultiListeners(c, "HANDOFF") {
+		ruleCancelPump(c, m, "HANDOFF")
+	}
 }
 
 func runC04(c *Ctx) {
